@@ -4,6 +4,10 @@
 
    tree = [main, drop, mshape, dshape]
      main[i]  \in {"absent","regular","empty","devnull"}       main file of layer i (1 = lowest)
+              or "dangling": a symbolic link whose target does not exist.  lstat() finds it, so the
+              restrictions and the callback see it, but it cannot be opened: the scan for the main
+              file goes on below it as if it were absent (fault scenarios of C20 only; the tree
+              universes of C01/C12 are generated from MainKinds)
      drop[i]  \subseteq 1..9                                   drop-in names present in layer i
    Names are indices into the pool below, ordered byte-wise by index; whether a name carries the
    suffix ".conf" is computed (Carries): 1 (".conf" itself), 7 ("a.conf.bak") and 8 ("conf") do not.
@@ -63,7 +67,11 @@ Content(tree, f) == IF f.r = 0
 \* ---------- which files are consulted, in processing order ----------
 RECURSIVE MainScan(_, _)
 MainScan(tree, i) == IF i = 0 THEN <<>>                                 \* reverse scan: highest layer first
+                     ELSE IF tree.main[i] = "dangling" THEN <<File(i, 0)>> \o MainScan(tree, i - 1)
                      ELSE IF tree.main[i] # "absent" THEN <<File(i, 0)>> ELSE MainScan(tree, i - 1)
+IsDangling(tree, f) == f.r = 0 /\ tree.main[f.l] = "dangling"
+\* the consulted files that could be opened
+Real(tree, K) == SelectSeq(K, LAMBDA f : ~IsDangling(tree, f))
 \* postfix directory of drop-in n in layer i (CONFIG_DIRS / econf_set_conf_dirs lists): 1 unless the tree says otherwise
 PdOf(tree, i, n) == IF "pd" \in DOMAIN tree THEN tree.pd[i][n] ELSE 1
 \* inside a layer: postfix directories in list order, inside a directory alphasort = index order
@@ -79,11 +87,14 @@ Consulted(tree) == MainScan(tree, NLy(tree)) \o AllDrops(tree, 1)
 \*   "symlink" "owner" "group"  a restriction in force that the file violates (checked first, in lstat order)
 \*   "reject"                   the caller's callback says no (asked after the restrictions, before parsing)
 \*   "malformed"                the content has a malformed line (found last)
+\*   "dangling"                 a drop-in that is a symbolic link to nowhere: listed by scandir, accepted by the
+\*                              callback, but it cannot be opened: the read fails with ECONF_NOFILE
 SecKinds == {"owner", "group", "symlink"}
 CodeOf(x) == CASE x = "reject" -> "ECONF_PARSING_CALLBACK_FAILED"
                [] x = "owner" -> "ECONF_WRONG_OWNER" [] x = "group" -> "ECONF_WRONG_GROUP"
                [] x = "symlink" -> "ECONF_ERROR_FILE_IS_SYM_LINK"
                [] x = "malformed" -> "ECONF_MISSING_BRACKET"
+               [] x = "dangling" -> "ECONF_NOFILE"
                [] OTHER -> "ECONF_SUCCESS"
 \* which codes may be reported for a failing file: a violated restriction wins over the callback, the
 \* callback over the content; among several violated restrictions any of their codes is accepted
@@ -103,13 +114,14 @@ Masked(K, j) == K[j].r # 0 /\ \E j2 \in (j+1)..Len(K) : K[j2].r = K[j].r
 Unmasked(K) == LET idx == SelectSeq([j \in 1..Len(K) |-> j], LAMBDA j : ~Masked(K, j)) IN [n \in 1..Len(idx) |-> K[idx[n]]]
 
 Read(tree, faults) ==
-  LET K == Consulted(tree)  ff == FirstFault(K, faults) IN
+  LET K == Consulted(tree)  ff == FirstFault(K, faults)  R == Real(tree, K) IN
   IF K = <<>> THEN [rc |-> "ECONF_NOFILE", rcs |-> {"ECONF_NOFILE"}, log |-> <<>>, cfg |-> <<>>, errfile |-> <<>>, hist |-> <<>>]
   ELSE IF ff # 0 THEN LET cs == CodesOf(faults[K[ff]]) IN
                       [rc |-> IF Cardinality(cs) = 1 THEN CHOOSE c \in cs : TRUE ELSE "one-of", rcs |-> cs,
                        log |-> CallbackLog(K, faults), cfg |-> <<>>, errfile |-> <<K[ff]>>, hist |-> <<>>]
-  ELSE LET U == Unmasked(K) IN
-       [rc |-> "ECONF_SUCCESS", rcs |-> {"ECONF_SUCCESS"}, log |-> K, errfile |-> <<>>, hist |-> K,
+  ELSE IF R = <<>> THEN [rc |-> "ECONF_NOFILE", rcs |-> {"ECONF_NOFILE"}, log |-> K, cfg |-> <<>>, errfile |-> <<>>, hist |-> <<>>]
+  ELSE LET U == Unmasked(R) IN
+       [rc |-> "ECONF_SUCCESS", rcs |-> {"ECONF_SUCCESS"}, log |-> K, errfile |-> <<>>, hist |-> R,
         cfg |-> FoldMerge([j \in 1..Len(U) |-> Content(tree, U[j])])]
 AllFiles(tree) == {File(l, r) : l \in 1..NLy(tree), r \in 0..NNames}
 NoFaults(tree) == [f \in AllFiles(tree) |-> {}]
@@ -118,7 +130,7 @@ NoFaults(tree) == [f \in AllFiles(tree) |-> {}]
 Override(m1, m2) == [p \in DOMAIN m1 \cup DOMAIN m2 |-> IF p \in DOMAIN m2 THEN m2[p] ELSE m1[p]]
 RECURSIVE FoldOv(_)
 FoldOv(ms) == IF Len(ms) = 1 THEN ms[1] ELSE Override(FoldOv(SubSeq(ms, 1, Len(ms) - 1)), ms[Len(ms)])
-HasMain(tree) == {i \in 1..NLy(tree) : tree.main[i] # "absent"}
+HasMain(tree) == {i \in 1..NLy(tree) : tree.main[i] \notin {"absent", "dangling"}}
 RefMain(tree) == IF HasMain(tree) = {} THEN <<>> ELSE <<MapOf(Content(tree, File(Max(HasMain(tree)), 0)))>>
 \* effective drop-ins: carry the suffix; no higher layer holds the same name
 Effective(tree) == {<<i, n>> \in (1..NLy(tree)) \X (1..NNames) :
